@@ -222,6 +222,32 @@ func VerifH10cImportFile() {
 	verifrt.Assert(err3 != nil, "missing-import-is-error")
 }
 
+// VerifH10cQuotedLayout: line breaks, blanks and backslashes inside a quoted argument do not change
+// the structure: the next directive stays its own directive and the argument text is exactly as written.
+func VerifH10cQuotedLayout() {
+	n := verifrt.IntRange("qlen", 0, 3+verifrt.Tier())
+	q := verifrt.String("q", n)
+	for i := 0; i < n; i++ {
+		verifrt.Assume(zzIn(q[i], "a\n\\ #"))
+	}
+	// a trailing backslash would escape the closing quote: that is a different text
+	verifrt.Assume(n == 0 || q[n-1] != '\\')
+	text := "site {\n\tdir1 \"" + q + "\"\n\tdir2 arg\n}\n"
+	blocks, err := Parse("Casketfile", strings.NewReader(text), nil)
+	verifrt.Assert(err == nil, "parses")
+	if err != nil {
+		return
+	}
+	verifrt.Assert(len(blocks) == 1 && len(blocks[0].Keys) == 1 && blocks[0].Keys[0] == "site", "one-block")
+	d1, d2 := blocks[0].Tokens["dir1"], blocks[0].Tokens["dir2"]
+	verifrt.Assert(len(d1) == 2 && d1[0].Text == "dir1" && d1[1].Text == q, "quoted-argument-as-written")
+	verifrt.Assert(len(d2) == 2 && d2[0].Text == "dir2" && d2[1].Text == "arg", "next-directive-separate")
+	if len(d2) == 2 {
+		nl := strings.Count(q, "\n")
+		verifrt.Assert(d2[0].Line == 3+nl, "line-numbers-count-quoted-breaks")
+	}
+}
+
 // VerifH10dEnv: environment placeholders are replaced by their values; expansion terminates.
 func VerifH10dEnv() {
 	verifrt.Terminates()
